@@ -232,6 +232,17 @@ func genContentBytes(t *rapid.T, network string) []byte {
 	return rapid.SliceOfN(rapid.Byte(), 0, 64).Draw(t, "craw")
 }
 
+// hostilePrefix is a length prefix at the edges of 32-bit arithmetic followed by a few bytes.
+func hostilePrefix(t *rapid.T) []byte {
+	p := rapid.SampledFrom([][]byte{
+		{0xff, 0xff, 0xff, 0xff, 0x0f}, {0xfe, 0xff, 0xff, 0xff, 0x0f}, {0xfb, 0xff, 0xff, 0xff, 0x0f}, {0xfa, 0xff, 0xff, 0xff, 0x0f},
+		{0xff, 0xff, 0xff, 0xff, 0x07}, {0x80, 0x80, 0x80, 0x80, 0x08}, {0x83, 0x80, 0x80, 0x80, 0x10}, {0x80, 0x80, 0x80, 0x80, 0x10},
+		{0xff, 0xff, 0xff, 0xff, 0x7f}, {0x83, 0x80, 0x80, 0x80, 0x80, 0x00}, {0x80, 0x80, 0x80, 0x80, 0x80, 0x80, 0x80, 0x80, 0x80, 0x01},
+		{0x80}, {0xff, 0xff}, {0x05}, {0x80, 0x00},
+	}).Draw(t, "prefix")
+	return append(append([]byte{}, p...), rapid.SliceOfN(rapid.Byte(), 0, 12).Draw(t, "after")...)
+}
+
 func genKV(t *rapid.T, network string) ([]byte, []byte) {
 	vs := vectors(network)
 	if len(vs) > 0 && rapid.IntRange(0, 2).Draw(t, "paired") != 0 {
@@ -393,11 +404,18 @@ func genC01(t *rapid.T) c01Plan {
 				items = append(items, genContentBytes(t, network))
 			}
 			s.Msg = portalwire.VerifEncodeContents(items)
-			if rapid.IntRange(0, 2).Draw(t, "smut") == 0 {
+			switch rapid.IntRange(0, 3).Draw(t, "smut") {
+			case 0:
 				s.Msg = mutateBytes(t, s.Msg)
+			case 1:
+				s.Msg = append(s.Msg, hostilePrefix(t)...)
 			}
 		case "utpcontent":
-			s.Msg = mutateBytes(t, portalwire.VerifEncodeSingleContent(genContentBytes(t, network)))
+			if rapid.Bool().Draw(t, "hostile") {
+				s.Msg = hostilePrefix(t)
+			} else {
+				s.Msg = mutateBytes(t, portalwire.VerifEncodeSingleContent(genContentBytes(t, network)))
+			}
 		case "validate", "put":
 			s.Key, s.Msg = genKV(t, network)
 		case "get":
